@@ -2,16 +2,17 @@ import BppModel.Prelude.Scalar
 /-
 C06 — the parts of the eigen-decomposition code that are logic (DESIGN §7 C06).
 
-Transcribed (bug-compatibly) from
+Transcribed (bug-compatibly) from  (line numbers: the library tree of branch fix-C06, i.e. with the
+verification hooks and the round-2 repair of hqr2; they move when hooks are added)
   src/Bpp/Numeric/Matrix/EigenValue.h
-    * 510-530   `cdiv`            complex scalar division (Smith's formulas)
-    * 1079-1085 symmetry test of the constructor (and the dispatch on its result)
-    * 1180-1199 `getD`            assembly of the block-diagonal matrix D from (d, e)
+    * 590-608   `cdiv`            complex scalar division (Smith's formulas)
+    * 1280-1286 symmetry test of the constructor (and the dispatch on its result, 1289 / 1305)
+    * 1381-1400 `getD`            assembly of the block-diagonal matrix D from (d, e)
   src/Bpp/Numeric/Matrix/MatrixTools.h
-    * 290-309   `mult(A, D, B, O)`   A · diag(D) · B
-    * 514-523   `pow(A, double p, O)`   V · diag(λ^p) · V⁻¹
-    * 536-545   `exp(A, O)`             V · diag(exp λ) · V⁻¹
-  src/Bpp/Numeric/VectorTools.h 793-796 / 841-844  entry-wise exp / pow of a vector.
+    * 296-316   `mult(A, D, B, O)`   A · diag(D) · B
+    * 526-535   `pow(A, double p, O)`   V · diag(λ^p) · V⁻¹
+    * 548-557   `exp(A, O)`             V · diag(exp λ) · V⁻¹
+  src/Bpp/Numeric/VectorTools.h 809-815 / 857-863  entry-wise exp / pow of a vector.
 
 NOT transcribed: tred2 / tql2 / orthes / hqr2 (the QL / QR iterations) and the LU inverse.
 They appear in the glue as *parameters* (`V`, `lam`, `W`): theorems hold for every value of
@@ -38,7 +39,7 @@ abbrev FMat (α : Type) := Nat → Nat → α
 
 variable {α : Type} [Scalar α]
 
-/-! ## cdiv   (EigenValue.h:510-530) -/
+/-! ## cdiv   (EigenValue.h:590-608) -/
 
 /-- `NumTools::abs<T>(a)` = `a < 0 ? -a : a`   (NumTools.h:31) -/
 def nabs (a : α) : α := if ltb a zero then -a else a
@@ -54,7 +55,7 @@ def cdiv (xr xi yr yi : α) : α × α :=
     let d := yi + r * yr
     ((r * xr + xi) / d, (r * xi - xr) / d)
 
-/-! ## symmetry test and dispatch   (EigenValue.h:1079-1085, 1087, 1103)
+/-! ## symmetry test and dispatch   (EigenValue.h:1280-1286, 1289, 1305)
 
 ```
 for (size_t j = 0; (j < n_) && issymmetric_; j++)
@@ -77,7 +78,7 @@ inductive Route where
 def dispatch (n : Nat) (A : FMat α) : Route :=
   if isSymmetric n A then .tred2_tql2 else .orthes_hqr2
 
-/-! ## getD   (EigenValue.h:1180-1199)
+/-! ## getD   (EigenValue.h:1381-1400)
 
 ```
 for (size_t i = 0; i < n_; i++) {
@@ -150,7 +151,7 @@ def spectrumProd (n : Nat) (d e : Nat → α) : α :=
 def spectrumSum (n : Nat) (d : Nat → α) : α :=
   (List.range n).foldl (fun acc i => acc + d i) zero
 
-/-! ## A · diag(D) · B   (MatrixTools.h:290-309)
+/-! ## A · diag(D) · B   (MatrixTools.h:296-316)
 
 ```
 O(i, j) = 0;
@@ -166,7 +167,7 @@ def multEntry (n : Nat) (A B : FMat α) (i j : Nat) : α :=
 def tabulate (nr nc : Nat) (f : FMat α) : List (List α) :=
   (List.range nr).map fun i => (List.range nc).map fun j => f i j
 
-/-! ## pow(A, double p) and exp(A)   (MatrixTools.h:514-545)
+/-! ## pow(A, double p) and exp(A)   (MatrixTools.h:526-557)
 
 ```
 size_t n = A.getNumberOfRows();
